@@ -12,6 +12,11 @@ after EVERY step of an enumerated history, dataset re-opened from disk each time
            name with identical bytes (no rewrite / truncate / rename).
 Second family: the same contract on datasets that already hold >= 11 part files and / or whose part numbering has
 holes (row groups removed with remove_row_groups, part names left alone) before the appends.
+Third family: appended frames that are schema-compatible (same column names and dtypes) but carry their columns in a
+DIFFERENT ORDER than the dataset (reversed / rotated / int and float column swapped / alphabetical; per step), over
+single-file, hive, partitioned hive and drill datasets, both append entry points; the columns have mixed dtypes
+(int64, float64 with fractional values, text, categorical, int64 / text partition candidates), so that a column
+stored under another column's name or schema element shows in the values.
 """
 import os
 
@@ -201,15 +206,38 @@ def c07_check_bytes(path, spec, before):
     return None
 
 
+COL_ORDERS = ["same", "reversed", "rotate1", "rotate3", "swap_int_float", "alphabetical"]
+
+
+def c07_reorder(df, kind):
+    """the same frame with its COLUMNS in another order (same names, same dtypes, same values)"""
+    cols = list(df.columns)
+    if kind == "reversed":
+        cols = cols[::-1]
+    elif kind == "rotate1":
+        cols = cols[1:] + cols[:1]
+    elif kind == "rotate3":
+        cols = cols[3:] + cols[:3]
+    elif kind == "swap_int_float":
+        i, j = cols.index("x"), cols.index("f")
+        cols[i], cols[j] = cols[j], cols[i]
+    elif kind == "alphabetical":
+        cols = sorted(cols)
+    elif kind != "same":
+        raise ValueError(kind)
+    return df[cols]
+
+
 def c07_append(fp, path, spec, frame, step):
     codec = CODECS[spec["codecs"][step]]
     rgo = c07_rgo(spec["rgos"][step], len(frame))
+    order = (spec.get("col_order") or ["same"] * (step + 1))[step]
     if spec["api"] == "write":
-        fp.write(path, frame, file_scheme=spec["scheme"], partition_on=spec["part"], append=True,
+        fp.write(path, c07_reorder(frame, order), file_scheme=spec["scheme"], partition_on=spec["part"], append=True,
                  compression=codec, row_group_offsets=rgo)
     else:
         pf = fp.ParquetFile(path)
-        pf.write_row_groups(c07_expected(frame, spec), row_group_offsets=rgo, compression=codec)
+        pf.write_row_groups(c07_reorder(c07_expected(frame, spec), order), row_group_offsets=rgo, compression=codec)
 
 
 def c07_run_history(fp, spec, root):
@@ -346,6 +374,44 @@ def enumerate_many(tier):
     return specs
 
 
+# third family: the appended frame carries the dataset's columns in ANOTHER ORDER
+REORDER_CONFIGS = [
+    ("simple", [], None, "write"),
+    ("simple", [], None, "wrg"),
+    ("simple", [], "dt", "write"),
+    ("hive", [], None, "write"),
+    ("hive", [], "int", "wrg"),
+    ("hive", ["p"], None, "write"),
+    ("hive", ["p"], None, "wrg"),
+    ("hive", ["p", "q"], None, "write"),
+    ("hive", ["q"], "dt", "write"),
+    ("drill", [], None, "write"),
+    ("drill", ["p"], None, "wrg"),
+]
+# original + appends (no categorical conflict: that known finding must not interfere), column order of each append
+REORDER_HISTORIES = [("AA", 1), ("AM", 1), ("AN", 1), ("AX", 1), ("MA", 1), ("AAA", 2), ("AMA", 2), ("UAM", 2)]
+
+
+def enumerate_reordered(tier):
+    specs = []
+    orders = COL_ORDERS[1:]
+    for ci, (scheme, part, idx, api) in enumerate(REORDER_CONFIGS):
+        for hi, (batches, napp) in enumerate(REORDER_HISTORIES):
+            for oi, order in enumerate(orders):
+                if tier == "quick" and hi >= 2 and (ci + hi + oi) % 3:
+                    continue            # quick: every order for the first two histories, a third of the rest
+                steps = len(batches)
+                # two appends: the second one in another order (or in the dataset's own order again)
+                col_order = ["same", order] + ([(orders + ["same"])[(oi + ci + 2) % (len(orders) + 1)]] if napp == 2 else [])
+                specs.append({
+                    "scheme": scheme, "part": part, "idx": idx, "api": api, "batches": batches,
+                    "codecs": [(ci + hi + oi + 2 * s) % len(CODECS) for s in range(steps)],
+                    "rgos": [RGOS[(ci + hi + oi + s) % len(RGOS)] for s in range(steps)],
+                    "col_order": col_order,
+                })
+    return specs
+
+
 def enumerate_specs(tier, seed):
     specs = []
     hs = histories(tier, seed)
@@ -368,7 +434,7 @@ def enumerate_specs(tier, seed):
                 "rgos": [RGOS[(ci + hi // 3 + s) % len(RGOS)] for s in range(steps)],
             }
             specs.append(spec)
-    return specs + enumerate_many(tier)
+    return specs + enumerate_many(tier) + enumerate_reordered(tier)
 
 
 def features_of(spec, aspect, res=None):
@@ -381,6 +447,7 @@ def features_of(spec, aspect, res=None):
         "part_numbering": "n/a" if "_hole" not in res else ("hole" if res["_hole"] else "dense"),
         "scheme": spec["scheme"], "partition_on": ",".join(spec["part"]), "index": spec["idx"] or "none",
         "api": spec["api"], "original": spec["batches"][0], "appends": spec["batches"][1:],
+        "col_order": ",".join(spec["col_order"][1:]) if spec.get("col_order") else "same",
         "codecs": ",".join(str(c) for c in spec["codecs"]), "rgo": ",".join(spec["rgos"]),
         "aspect": aspect, "cat_conflict": c07_cat_conflict(spec) if aspect == "cat" else "n/a",
     }
@@ -433,7 +500,12 @@ def run_bounded(ctx):
         "part numbering below the maximum (part.1,part.2 / part.0..part.10 without part.5 / part.3..part.11 / ...) x "
         f"appends {MANY_APPENDS} (quick: half of the two-append histories); expected rows = surviving original "
         "rows (computed from the offsets and the partition keys) then each batch; every data file present before an "
-        "append must stay present with identical bytes; files_before / part_numbering features are read from the directory."))
+        "append must stay present with identical bytes; files_before / part_numbering features are read from the directory."
+        f"  ||  THIRD FAMILY (column order of the appended frame): {len(REORDER_CONFIGS)} configurations (simple / hive / drill, "
+        "partition_on none/p/q/p,q, index none/datetime/int64, write(append=True) | write_row_groups) x histories "
+        f"{[h for h, _ in REORDER_HISTORIES]} x column orders {COL_ORDERS[1:]} of the appended frame(s) (two appends: two "
+        "different orders); columns x int64 / f float64 (fractional) / s text / c categorical / p int64 / q text (+ idx), "
+        "same names and dtypes as the dataset; quick: every order for the first two histories, a third of the others."))
     specs = enumerate_specs(ctx.tier, ctx.seed)
     results = pool_map(_worker, specs, chunksize=8)
     for spec, res in zip(specs, results):
